@@ -1,5 +1,6 @@
 (* C19 — runs leave inputs untouched, scratch space empty, and do not interfere.
-   Property theorems only: each is closed by `exact <lemma>` (Proofs/FsModelP.v, Proofs/FsProgP.v).
+   Property theorems only: each is closed by `exact <lemma>` (Proofs/FsModelP.v, Proofs/FsProgP.v,
+   Proofs/FsProbeP.v; Proofs/TrackerP.v for the FileTracker part).
    The acceptor `accept : config -> fs -> list op -> result` (Model/FsModel.v) is what the
    harness feeds the strace'd operation traces of the real stages to.  The trace alphabet
    contains the OBSERVATIONS a run makes (`Stat p r`: stat / exists() / is_file() / access /
@@ -22,7 +23,7 @@
    the tie, which digests the outputs of runs across histories (stale files planted, success
    after success/failure, concurrent pairs) against an undisturbed run. *)
 From Coq Require Import ZArith List Bool.
-From CTM Require Import Base.Sx Model.FsModel Proofs.FsModelP Proofs.FsProgP.
+From CTM Require Import Base.Sx Model.FsModel Proofs.FsModelP Proofs.FsProgP Proofs.FsProbeP.
 Import ListNotations.
 Open Scope Z_scope.
 
@@ -105,6 +106,58 @@ Theorem c19_stale_independence_program : forall c pg fuel f1 f2 g1 t h,
        lookup g1 p = lookup f1 p /\ lookup g2 p = lookup f2 p).
 Proof. exact stale_independence_program_thm. Qed.
 Print Assumptions c19_stale_independence_program.
+
+(* c19_stale_independence_program compares two file systems with the same KIND of entry at
+   every declared output, so it cannot compare a FIRST run (outputs absent) with a run AFTER AN
+   EARLIER SUCCESS (outputs present) -- the one situation in which the real run_mapping
+   branches: `if not pth.exists(): open(pth,'w').write('junk'); pth.unlink()`.  This theorem
+   does, for probing programs (Model/FsModel.v): a core that does not see the answer of a Stat
+   on a set O' of declared outputs (it sees `OKind PExists` whatever is there), wrapped by
+   `wrapP O' cid core` so that a Stat the core flags is followed by the probe
+   `Create p true cid; Unlink p` exactly when it answered "absent".
+
+   f2 is the STALE file system: every path of O' is a file (an earlier run left it); f1 the
+   FRESH one: every path of O' is absent.  Otherwise the hypotheses of
+   c19_stale_independence_program: agreement on the inputs (and the writable query), in KIND
+   on the declared paths and their ancestors OUTSIDE O', the run's scratch names new in both.
+   If the run on the STALE file system is accepted then the run of the same program on the
+   FRESH one is accepted (within 3 * fuel operations: each Stat may grow into three), and
+     - erase O' t1 = erase O' t2: the traces are equal once the Stat operations on O' (their
+       answers differ) and the adjacent pairs `Create p _ _; Unlink p` on O' (the probes) are
+       removed -- same operations, same order, same content ids written;
+     - the runs make the same names in the scratch root;
+     - every declared output ends up the same (or, never written, is what it was in each);
+     - everything else outside the run's own scratch names is what it was, in each.
+   DIRECTION.  Only stale => fresh holds.  The acceptor's book-keeping is more permissive where
+   an output was absent: the probe makes the path `owned` (a later append-first
+   `Create p false` is allowed; on a file an earlier run left it is code 11, finding F9b), and
+   an output created where nothing was is `new` (it may be unlinked again; one that was there
+   may not, code 13).  ex_probe_direction_append / ex_probe_direction_unlink: accepted fresh,
+   refused stale.
+   WHAT IS NOT SAID.  Nothing about a core that sees the answer (that is
+   ex_existence_hypothesis_needed: it may then write anything), and `Stat` tells only the KIND:
+   a real stat() of a stale output also returns st_size / st_mtime, which the model does not
+   expose (the mapper does not use them today). *)
+Theorem c19_stale_independence_up_to_probes : forall c O' cid core fuel f1 f2 g2 t2 h2,
+  outside_scratch c = true -> mem (c_query c) (c_outputs c) = false ->
+  incl O' (c_outputs c) ->
+  (forall p, In p (c_inputs c) -> lookup f1 p = lookup f2 p) ->
+  (c_obsm c = true -> lookup f1 (c_query c) = lookup f2 (c_query c)) ->
+  (forall p, kregion c p = true -> ~ In p O' -> kind_of (lookup f1 p) = kind_of (lookup f2 p)) ->
+  (forall p, In p O' -> lookup f1 p = None /\ kind_of (lookup f2 p) = PFile) ->
+  paccept c (wrapP O' cid core) fuel f2 g2 t2 h2 ->
+  (forall p, in_cone c (fresh_names c t2) p = true -> lookup f1 p = None /\ lookup f2 p = None) ->
+  exists fuel1 g1 t1 h1,
+    (fuel1 <= 3 * fuel)%nat /\
+    paccept c (wrapP O' cid core) fuel1 f1 g1 t1 h1 /\
+    erase O' t1 = erase O' t2 /\
+    fresh_names c t1 = fresh_names c t2 /\
+    (forall o, In o (c_outputs c) ->
+       lookup g1 o = lookup g2 o \/ (lookup g1 o = lookup f1 o /\ lookup g2 o = lookup f2 o)) /\
+    (forall p, in_cone c (fresh_names c t2) p = false -> ~ In p (c_outputs c) -> wq c p = false ->
+       lookup g1 p = lookup f1 p /\ lookup g2 p = lookup f2 p).
+Proof. exact stale_independence_up_to_probes_thm. Qed.
+Print Assumptions c19_stale_independence_up_to_probes.
 
 (* The trace of an accepted program run is an accepted trace: c19_acceptor_sound,
    c19_preexisting_output_never_deleted and c19_concurrent_noninterference apply to it. *)
@@ -258,6 +311,159 @@ Proof.
   split; [eexists; vm_compute; split; reflexivity|].
   split; [|vm_compute; split; reflexivity].
   intros p Hp. unfold ex_fs_log. cbn [lookup]. destruct (path_eqb [2;2] p) eqn:E; [|reflexivity].
+  apply path_eqb_eq in E. congruence.
+Qed.
+
+(* ---- probing programs: c19_stale_independence_up_to_probes ---- *)
+(* (i) run_mapping as a probing program.  The core: is tmp/ a directory?, cell_type_mapper_5,
+   a FLAGGED look at the log path [2;2], then the body -- in which the unflagged
+   `Stat [2;1] _` looks at the other output.  The core never sees what is at an output. *)
+Definition body_core (body : list op) : pcore := fun eh =>
+  match eh with
+  | [] => (Stat [3] PExists, false)
+  | [_] => (Mkdir [3;5], false)
+  | [_; _] => (Stat [2;2] PExists, true)
+  | _ :: _ :: _ :: r => (nth (length r) body (Return false), false)
+  end.
+Definition ex_core : pcore := body_core ex_body.
+
+(* wrapped, it is ex_prog: the same run where the log is absent (ex_fs: the trace is ex_trace,
+   with the probe) and where an earlier run left it (ex_fs_log: no probe; refused with code
+   11 when it appends to that log first -- finding F9b) *)
+Example ex_core_is_ex_prog :
+  (exists g h, paccept ex_cfg (wrapP [[2;2]] 100 ex_core) 40 ex_fs g ex_trace h) /\
+  prun ex_cfg (wrapP [[2;2]] 100 ex_core) 40 ex_fs bk0 [] = prun ex_cfg ex_prog 40 ex_fs bk0 [] /\
+  prun ex_cfg (wrapP [[2;2]] 100 ex_core) 40 ex_fs_log bk0 [] = Err 11 /\
+  prun ex_cfg ex_prog 40 ex_fs_log bk0 [] = Err 11 /\
+  (forall n, (n <= 25)%nat ->
+     prun ex_cfg (wrapP [[2;2]] 100 ex_core) n ex_fs_log bk0 [] = prun ex_cfg ex_prog n ex_fs_log bk0 []).
+Proof.
+  split; [do 2 eexists; eexists; vm_compute; split; reflexivity|].
+  split; [vm_compute; reflexivity|]. split; [vm_compute; reflexivity|]. split; [vm_compute; reflexivity|].
+  intros n Hn. do 26 (destruct n as [|n]; [vm_compute; reflexivity|]).
+  exfalso. repeat (apply le_S_n in Hn). inversion Hn.
+Qed.
+
+(* (ii) first run versus run after an earlier success.  Because the REAL body appends to the
+   log first (`Create [2;2] false 103`), its run where an earlier run left the log is refused
+   (ex_core_is_ex_prog: code 11, finding F9b) and the theorem's hypothesis "accepted on the
+   stale file system" fails for it.  The scenario therefore uses the body whose first write of
+   the log TRUNCATES (what the suggested fix of F9b does); everything else is the real shape.
+   O' = both outputs; fresh: neither exists; stale: an earlier run left both. *)
+Definition ex_body_t : list op :=
+  firstn 22 ex_body ++ [Create [2;2] true 103; Create [2;1] true 104; Return true].
+Definition ex_core_t : pcore := body_core ex_body_t.
+Definition ex_O : list path := [[2;1]; [2;2]].
+Definition ex_fresh_fs : fs := remove [2;1] ex_fs.
+Definition ex_stale_fs : fs := ([2;2], (KFile, 15)) :: ex_fs.
+Definition ex_trace_stale : list op :=
+  [ Stat [3] PDir; Mkdir [3;5]; Stat [2;2] PFile ] ++ ex_body_t.
+Definition ex_trace_fresh : list op :=
+  [ Stat [3] PDir; Mkdir [3;5]; Stat [2;2] PAbsent; Create [2;2] true 100; Unlink [2;2] ]
+  ++ firstn 21 ex_body ++ [Stat [2;1] PAbsent; Create [2;2] true 103; Create [2;1] true 104; Return true].
+
+(* all hypotheses of c19_stale_independence_up_to_probes hold ... *)
+Example ex_probe_hypotheses :
+  outside_scratch ex_cfg = true /\ mem (c_query ex_cfg) (c_outputs ex_cfg) = false /\
+  incl ex_O (c_outputs ex_cfg) /\
+  (forall p, In p (c_inputs ex_cfg) -> lookup ex_fresh_fs p = lookup ex_stale_fs p) /\
+  (forall p, kregion ex_cfg p = true -> ~ In p ex_O ->
+             kind_of (lookup ex_fresh_fs p) = kind_of (lookup ex_stale_fs p)) /\
+  (forall p, In p ex_O -> lookup ex_fresh_fs p = None /\ kind_of (lookup ex_stale_fs p) = PFile) /\
+  (exists g2 h2, paccept ex_cfg (wrapP ex_O 100 ex_core_t) 28 ex_stale_fs g2 ex_trace_stale h2) /\
+  (forall p, in_cone ex_cfg (fresh_names ex_cfg ex_trace_stale) p = true ->
+             lookup ex_fresh_fs p = None /\ lookup ex_stale_fs p = None).
+Proof.
+  split; [vm_compute; reflexivity|]. split; [vm_compute; reflexivity|].
+  split; [intros p Hp; exact Hp|].
+  split; [intros p [<-|[<-|[<-|[]]]]; reflexivity|].
+  split; [apply kagree_except_b_spec; vm_compute; reflexivity|].
+  split; [intros p [<-|[<-|[]]]; split; reflexivity|].
+  split; [do 2 eexists; eexists; vm_compute; split; reflexivity|].
+  intros p Hp; split; (eapply cone_free_b_spec; [|exact Hp]); vm_compute; reflexivity.
+Qed.
+
+(* ... so the theorem applies (here with the hypotheses in exactly its form) ... *)
+Example ex_probe_theorem_applies : exists fuel1 g1 t1 h1,
+  (fuel1 <= 84)%nat /\ paccept ex_cfg (wrapP ex_O 100 ex_core_t) fuel1 ex_fresh_fs g1 t1 h1 /\
+  erase ex_O t1 = erase ex_O ex_trace_stale.
+Proof.
+  destruct ex_probe_hypotheses as [H1 [H2 [H3 [H4 [H5 [H6 [[g2 [h2 H7]] H8]]]]]]].
+  destruct (c19_stale_independence_up_to_probes ex_cfg ex_O 100 ex_core_t 28 ex_fresh_fs ex_stale_fs g2
+              ex_trace_stale h2 H1 H2 H3 H4 (fun A => False_ind _ (Bool.diff_false_true A)) H5 H6 H7 H8)
+    as [fuel1 [g1 [t1 [h1 [L [P [E _]]]]]]].
+  exists fuel1, g1, t1, h1. split; [exact L|]. split; [exact P | exact E].
+Qed.
+
+(* ... and this is what it concludes: both runs are accepted; the fresh run probes the log path
+   and is told "absent" twice, the stale run is told "file" twice and does not probe: the raw
+   traces differ (30 and 28 operations), the erased traces are equal; both end with the same
+   outputs -- indeed the same file system: the stale output [2;1] was overwritten, the stale
+   scratch entries are untouched *)
+Example ex_probe_conclusion : exists g1 h1 g2 h2,
+  paccept ex_cfg (wrapP ex_O 100 ex_core_t) 30 ex_fresh_fs g1 ex_trace_fresh h1 /\
+  paccept ex_cfg (wrapP ex_O 100 ex_core_t) 28 ex_stale_fs g2 ex_trace_stale h2 /\
+  ex_trace_fresh <> ex_trace_stale /\
+  (length ex_trace_fresh = 30 /\ length ex_trace_stale = 28)%nat /\
+  erase ex_O ex_trace_fresh = erase ex_O ex_trace_stale /\
+  erase ex_O ex_trace_stale = [Stat [3] PDir; Mkdir [3;5]] ++ firstn 21 ex_body
+                              ++ [Create [2;2] true 103; Create [2;1] true 104; Return true] /\
+  fresh_names ex_cfg ex_trace_fresh = fresh_names ex_cfg ex_trace_stale /\
+  lookup g1 [2;1] = Some (KFile, 104) /\ lookup g2 [2;1] = Some (KFile, 104) /\
+  lookup g1 [2;2] = Some (KFile, 103) /\ lookup g2 [2;2] = Some (KFile, 103) /\
+  g1 = g2 /\ lookup g1 [3;9;1] = Some (KFile, 7) /\
+  nth 2 h1 ONone = OKind PAbsent /\ nth 2 h2 ONone = OKind PFile.
+Proof.
+  do 4 eexists.
+  split; [eexists; vm_compute; split; reflexivity|].
+  split; [eexists; vm_compute; split; reflexivity|].
+  split; [vm_compute; discriminate|].
+  vm_compute. repeat split; reflexivity.
+Qed.
+
+(* (iii) the direction matters.  A core that, after the flagged look at the log path, APPENDS
+   to it first: where the log was absent the probe has made the path the run's own and the
+   append is accepted; where an earlier run left the log it is refused (code 11) *)
+Definition ex_core_append : pcore := fun eh =>
+  match eh with
+  | [] => (Stat [2;2] PExists, true)
+  | [_] => (Create [2;2] false 103, false)
+  | _ => (Return true, false)
+  end.
+Example ex_probe_direction_append :
+  (exists g h, paccept ex_cfg (wrapP [[2;2]] 100 ex_core_append) 10 ex_fs g
+     [Stat [2;2] PAbsent; Create [2;2] true 100; Unlink [2;2]; Create [2;2] false 103; Return true] h) /\
+  prun ex_cfg (wrapP [[2;2]] 100 ex_core_append) 10 ex_fs_log bk0 [] = Err 11 /\
+  (forall p, In p [[2;2]] -> lookup ex_fs p = None /\ kind_of (lookup ex_fs_log p) = PFile) /\
+  (forall p, p <> [2;2] -> lookup ex_fs p = lookup ex_fs_log p).
+Proof.
+  split; [do 2 eexists; eexists; vm_compute; split; reflexivity|].
+  split; [vm_compute; reflexivity|].
+  split; [intros p [<-|[]]; split; reflexivity|].
+  intros p Hp. unfold ex_fs_log. cbn [lookup]. destruct (path_eqb [2;2] p) eqn:E; [|reflexivity].
+  apply path_eqb_eq in E. congruence.
+Qed.
+
+(* ... and a core that writes the result and removes it again: allowed where the result was
+   absent (the run made it: `new`), refused where an earlier run left one (code 13: an output
+   that was there is overwritten, never removed) *)
+Definition ex_core_unlink : pcore := fun eh =>
+  match eh with
+  | [] => (Create [2;1] true 104, false)
+  | [_] => (Unlink [2;1], false)
+  | _ => (Return true, false)
+  end.
+Example ex_probe_direction_unlink :
+  (exists g h, paccept ex_cfg (wrapP [[2;1]] 100 ex_core_unlink) 10 ex_fresh_fs g
+     [Create [2;1] true 104; Unlink [2;1]; Return true] h) /\
+  prun ex_cfg (wrapP [[2;1]] 100 ex_core_unlink) 10 ex_fs bk0 [] = Err 13 /\
+  (forall p, In p [[2;1]] -> lookup ex_fresh_fs p = None /\ kind_of (lookup ex_fs p) = PFile) /\
+  (forall p, p <> [2;1] -> lookup ex_fresh_fs p = lookup ex_fs p).
+Proof.
+  split; [do 2 eexists; eexists; vm_compute; split; reflexivity|].
+  split; [vm_compute; reflexivity|].
+  split; [intros p [<-|[]]; split; reflexivity|].
+  intros p Hp. unfold ex_fresh_fs. rewrite lookup_remove. destruct (path_eqb [2;1] p) eqn:E; [|reflexivity].
   apply path_eqb_eq in E. congruence.
 Qed.
 
